@@ -3,7 +3,7 @@ import itertools
 from common import Search, expect
 import metrics_common as mc
 import metric_zoo as mz
-from metric_zoo import replay_result_after_update   # pylint: disable=unused-import
+from metric_zoo import replay_result_after_update, replay_frequency_merge   # pylint: disable=unused-import
 
 
 def _state(entry, blocks):
